@@ -23,6 +23,7 @@ RULE = (
     "else the render completes with exactly prod(lengths) markers. Depth <= 2 over all kinds and lengths {0,1,2,3,5,12} is exhaustive "
     "(thorough: depth 3 too). Sibling cases render another complete nest (often of length zero) just before some level of the main nest: the "
     "outcome of the main nest must not change. Non-trivial = nest with >= 2 repeating constructs whose product differs from each single length."
+    " Rounds 5-6 added enumerated families: ragged nests (inner length changes between outer iterations): 10 inner forms x 3 outer forms x 11 row shapes x boundary limits."
 )
 REQUIRED = [
     ("liquid/context.py", "RenderContext.raise_for_loop_limit"),
